@@ -177,8 +177,11 @@ Definition meta (r : read) (t : str) : option tval :=
 Definition feat (r : read) (t : str) : str := py_str (meta r t).
 
 (* ---------------------------------------------------------------- the filter, in the order of the code *)
-Definition mp_unique (r : read) : bool :=
-  match get_tag r t_mp with Some (TStr s) => str_eqb s s_unique | _ => false end.
+(* read.get_tag(t) == 'literal'  (an int tag never equals a str) *)
+Definition tag_eq_str (r : read) (t s : str) : bool :=
+  match get_tag r t with Some (TStr x) => str_eqb x s | _ => false end.
+
+Definition mp_unique (r : read) : bool := tag_eq_str r t_mp s_unique.
 
 Definition cig_has (r : read) (ops : list Z) : res bool :=
   match cigar r with
@@ -458,6 +461,80 @@ Definition count_table (o : opts) (reads : list read) : res tbl :=
                      else acc)
                   regions (Ok [])
     end.
+
+
+(* ---------------------------------------------------------------- vocabulary of the GENERATED definitions
+   (coq/Gen/GenCountFilter.v is regenerated from the source of read_should_be_counted / assignReads /
+   create_count_table on every run; Proofs/C11_gen.v proves it equal to should_count / weight / prep above) *)
+(* short-circuit and / or / not over expressions that may raise *)
+Definition rand (a b : res bool) : res bool :=
+  match a with Raise e => Raise e | Ok false => Ok false | Ok true => b end.
+Definition ror (a b : res bool) : res bool :=
+  match a with Raise e => Raise e | Ok true => Ok true | Ok false => b end.
+Definition rnot (a : res bool) : res bool :=
+  match a with Raise e => Raise e | Ok v => Ok (negb v) end.
+(* 'I' in read.cigarstring *)
+Definition cig_in (r : read) (op : Z) : res bool :=
+  match cigar r with [] => Raise 1 | c => Ok (existsb (Z.eqb op) c) end.
+(* int(read.get_tag(t))  (KeyError = 6 when the tag is absent) *)
+Definition tag_int (r : read) (t : str) : res Z :=
+  match get_tag r t with Some v => py_int v | None => Raise 6 end.
+(* len(read.get_tag(t).split(sep)) *)
+Definition tag_split_len (r : read) (t sep : str) : res Z :=
+  match get_tag r t with
+  | Some (TStr s) => Ok (Z.of_nat (length (split sep s)))
+  | Some (TInt _) => Raise 3
+  | None => Raise 6
+  end.
+(* an optional integer option used as a number (comparison with None raises TypeError) *)
+Definition oz (x : option Z) : res Z := match x with Some z => Ok z | None => Raise 1 end.
+Definition opt_is_some {A} (x : option A) : bool := match x with Some _ => true | None => false end.
+Definition opt_mem (x : option str) (l : list str) : bool := match x with Some b => mem b l | None => false end.
+Definition rcmp (f : Z -> Z -> bool) (a b : res Z) : res bool :=
+  match a with Raise e => Raise e | Ok x => match b with Raise e => Raise e | Ok y => Ok (f x y) end end.
+Definition rgtb := rcmp Z.gtb.
+Definition rgeb := rcmp Z.geb.
+Definition rltb := rcmp Z.ltb.
+Definition rleb := rcmp Z.leb.
+Definition reqb := rcmp Z.eqb.
+(* countToAdd / n *)
+Definition rdivq (w : res Q) (d : res Z) : res Q :=
+  match w with
+  | Raise e => Raise e
+  | Ok q => match d with
+            | Raise e => Raise e
+            | Ok n => if n =? 0 then Raise 5 else Ok (q / inject_Z n)%Q
+            end
+  end.
+(* the blacklist loop with the interval test as a parameter: test start end interval_start interval_end *)
+Definition bl_hit_with (test : Z -> Z -> Z -> Z -> bool) (o : opts) (r : read) : res bool :=
+  match o_blacklist o with
+  | None => Ok false
+  | Some bl =>
+      match refname r with
+      | None => Ok false
+      | Some c =>
+          match bl_rows bl c with
+          | [] => Ok false
+          | ivs => match rend r with
+                   | None => Raise 1
+                   | Some e => Ok (existsb (fun iv => test (rstart r) e (fst iv) (snd iv)) ivs)
+                   end
+          end
+      end
+  end.
+
+(* a history of calls on ONE options namespace: each step first edits the namespace, then calls create_count_table.
+   create_count_table assigns only args.sliding / args.showtags / args.ref_lengths (Gen: gen_args_written), none of
+   which is a field of [opts]: the namespace as far as it is modelled is returned unchanged. *)
+Definition call (ns : opts) (reads : list read) : opts * res tbl := (ns, count_table ns reads).
+Fixpoint history (ns : opts) (steps : list (opts -> opts)) (reads : list read) : list (res tbl) :=
+  match steps with
+  | [] => []
+  | f :: fs => let '(ns', t) := call (f ns) reads in t :: history ns' fs reads
+  end.
+Fixpoint requested (ns : opts) (steps : list (opts -> opts)) : list opts :=
+  match steps with [] => [] | f :: fs => f ns :: requested (f ns) fs end.
 
 (* ---------------------------------------------------------------- preconditions (boolean; see Proofs for use) *)
 Definition xa_entry_ok (e : str) : bool := is_nil e || (Z.of_nat (length (split [44] e)) =? 4).
